@@ -1,0 +1,458 @@
+//! Running real sessions (tunnel, ping, speedtest, reverse proxy) over harness transports with
+//! a scripted forwarder.
+
+use super::pipes::{ByteSink, ByteSource, SinkIn, SinkOut, SourceIn, SourceOut};
+use crate::forwarder::{
+    DatagramMultiplexerAuthenticator, Forwarder, IcmpMultiplexer, TcpConnectionMeta, TcpConnector,
+    UdpMultiplexer, UdpMultiplexerMeta,
+};
+use crate::net_utils::TcpDestination;
+use crate::{authentication, core, datagram_pipe, downstream, forwarder, log_utils, net_utils, pipe, tunnel, udp_forwarder};
+use async_trait::async_trait;
+use std::collections::HashMap;
+use std::io;
+use std::net::{IpAddr, SocketAddr};
+use std::pin::Pin;
+use std::sync::{Arc, Mutex};
+use std::task::{Context, Poll};
+use tokio::io::{AsyncRead, AsyncWrite, ReadBuf};
+
+/// Any transport plus a fixed peer address
+pub struct VerifIo<T> {
+    pub io: T,
+    pub peer: SocketAddr,
+}
+
+impl<T> net_utils::PeerAddr for VerifIo<T> {
+    fn peer_addr(&self) -> io::Result<SocketAddr> {
+        Ok(self.peer)
+    }
+}
+
+impl<T: AsyncRead + Unpin> AsyncRead for VerifIo<T> {
+    fn poll_read(
+        mut self: Pin<&mut Self>,
+        cx: &mut Context<'_>,
+        buf: &mut ReadBuf<'_>,
+    ) -> Poll<io::Result<()>> {
+        Pin::new(&mut self.io).poll_read(cx, buf)
+    }
+}
+
+impl<T: AsyncWrite + Unpin> AsyncWrite for VerifIo<T> {
+    fn poll_write(
+        mut self: Pin<&mut Self>,
+        cx: &mut Context<'_>,
+        data: &[u8],
+    ) -> Poll<io::Result<usize>> {
+        Pin::new(&mut self.io).poll_write(cx, data)
+    }
+    fn poll_flush(mut self: Pin<&mut Self>, cx: &mut Context<'_>) -> Poll<io::Result<()>> {
+        Pin::new(&mut self.io).poll_flush(cx)
+    }
+    fn poll_shutdown(mut self: Pin<&mut Self>, cx: &mut Context<'_>) -> Poll<io::Result<()>> {
+        Pin::new(&mut self.io).poll_shutdown(cx)
+    }
+}
+
+#[derive(Copy, Clone, Debug, PartialEq, Eq, Hash)]
+pub enum Proto {
+    Http1,
+    Http2,
+    Http3,
+}
+
+#[derive(Copy, Clone, Debug, PartialEq, Eq, Hash)]
+pub enum ChannelView {
+    Tunnel,
+    Ping,
+    Speedtest,
+    ReverseProxy,
+}
+
+impl From<crate::tls_demultiplexer::Protocol> for Proto {
+    fn from(p: crate::tls_demultiplexer::Protocol) -> Self {
+        use crate::tls_demultiplexer::Protocol::*;
+        match p {
+            Http1 => Proto::Http1,
+            Http2 => Proto::Http2,
+            Http3 => Proto::Http3,
+        }
+    }
+}
+
+impl From<Proto> for crate::tls_demultiplexer::Protocol {
+    fn from(p: Proto) -> Self {
+        use crate::tls_demultiplexer::Protocol::*;
+        match p {
+            Proto::Http1 => Http1,
+            Proto::Http2 => Http2,
+            Proto::Http3 => Http3,
+        }
+    }
+}
+
+impl From<net_utils::Channel> for ChannelView {
+    fn from(c: net_utils::Channel) -> Self {
+        match c {
+            net_utils::Channel::Tunnel => ChannelView::Tunnel,
+            net_utils::Channel::Ping => ChannelView::Ping,
+            net_utils::Channel::Speedtest => ChannelView::Speedtest,
+            net_utils::Channel::ReverseProxy => ChannelView::ReverseProxy,
+        }
+    }
+}
+
+#[derive(Debug, Clone, PartialEq, Eq)]
+pub enum DestView {
+    Address(SocketAddr),
+    HostName(String, u16),
+}
+
+#[derive(Debug, Clone, PartialEq, Eq)]
+pub enum AuthView {
+    Sni(String),
+    ProxyBasic(String),
+}
+
+impl From<&authentication::Source<'_>> for AuthView {
+    fn from(a: &authentication::Source<'_>) -> Self {
+        match a {
+            authentication::Source::Sni(x) => AuthView::Sni(x.to_string()),
+            authentication::Source::ProxyBasic(x) => AuthView::ProxyBasic(x.to_string()),
+        }
+    }
+}
+
+impl From<AuthView> for authentication::Source<'static> {
+    fn from(a: AuthView) -> Self {
+        match a {
+            AuthView::Sni(x) => authentication::Source::Sni(x.into()),
+            AuthView::ProxyBasic(x) => authentication::Source::ProxyBasic(x.into()),
+        }
+    }
+}
+
+#[derive(Debug, Clone, PartialEq, Eq)]
+pub struct TcpMetaView {
+    pub client_address: IpAddr,
+    pub destination: DestView,
+    pub auth: Option<AuthView>,
+    pub tls_domain: String,
+    pub user_agent: Option<String>,
+}
+
+impl From<&TcpConnectionMeta> for TcpMetaView {
+    fn from(m: &TcpConnectionMeta) -> Self {
+        Self {
+            client_address: m.client_address,
+            destination: match &m.destination {
+                TcpDestination::Address(a) => DestView::Address(*a),
+                TcpDestination::HostName((h, p)) => DestView::HostName(h.clone(), *p),
+            },
+            auth: m.auth.as_ref().map(AuthView::from),
+            tls_domain: m.tls_domain.clone(),
+            user_agent: m.user_agent.clone(),
+        }
+    }
+}
+
+impl From<TcpMetaView> for TcpConnectionMeta {
+    fn from(m: TcpMetaView) -> Self {
+        Self {
+            client_address: m.client_address,
+            destination: match m.destination {
+                DestView::Address(a) => TcpDestination::Address(a),
+                DestView::HostName(h, p) => TcpDestination::HostName((h, p)),
+            },
+            auth: m.auth.map(Into::into),
+            tls_domain: m.tls_domain,
+            user_agent: m.user_agent,
+        }
+    }
+}
+
+#[derive(Debug, Clone, PartialEq, Eq)]
+pub struct UdpMuxMetaView {
+    pub client_address: IpAddr,
+    pub auth: Option<AuthView>,
+    pub tls_domain: String,
+    pub user_agent: Option<String>,
+}
+
+/// Plain view of [`tunnel::ConnectionError`]
+#[derive(Debug)]
+pub enum ConnErrView {
+    Io(io::Error),
+    Authentication(String),
+    Timeout,
+    HostUnreachable,
+    DnsNonroutable,
+    DnsLoopback,
+    Other(String),
+}
+
+impl From<tunnel::ConnectionError> for ConnErrView {
+    fn from(e: tunnel::ConnectionError) -> Self {
+        use tunnel::ConnectionError::*;
+        match e {
+            Io(x) => ConnErrView::Io(x),
+            Authentication(x) => ConnErrView::Authentication(x),
+            Timeout => ConnErrView::Timeout,
+            HostUnreachable => ConnErrView::HostUnreachable,
+            DnsNonroutable => ConnErrView::DnsNonroutable,
+            DnsLoopback => ConnErrView::DnsLoopback,
+            Other(x) => ConnErrView::Other(x),
+        }
+    }
+}
+
+impl From<ConnErrView> for tunnel::ConnectionError {
+    fn from(e: ConnErrView) -> Self {
+        use tunnel::ConnectionError::*;
+        match e {
+            ConnErrView::Io(x) => Io(x),
+            ConnErrView::Authentication(x) => Authentication(x),
+            ConnErrView::Timeout => Timeout,
+            ConnErrView::HostUnreachable => HostUnreachable,
+            ConnErrView::DnsNonroutable => DnsNonroutable,
+            ConnErrView::DnsLoopback => DnsLoopback,
+            ConnErrView::Other(x) => Other(x),
+        }
+    }
+}
+
+pub type PipeHalves = (Box<dyn ByteSource>, Box<dyn ByteSink>);
+
+/// What the scripted forwarder does when a datagram multiplexer is requested
+pub enum MuxPlan {
+    /// creation fails with this error
+    Fail(io::Error),
+    /// ICMP only: forwarding is not set up
+    NotConfigured,
+    /// use the real direct forwarder's multiplexer
+    Real,
+    /// a multiplexer that accepts and drops everything and never produces anything
+    Dummy,
+}
+
+/// The scripted forwarder: every outbound attempt of a tunnel lands here.
+#[async_trait]
+pub trait Connector: Send + Sync {
+    /// Decide the outcome of an outbound TCP connection (may take virtual time, may never return)
+    async fn tcp_connect(&self, meta: TcpMetaView) -> Result<PipeHalves, ConnErrView>;
+    /// Outcome of the SOCKS-style authentication step of a datagram multiplexer
+    async fn datagram_auth(&self, _meta: UdpMuxMetaView) -> Result<(), ConnErrView> {
+        Ok(())
+    }
+    fn udp_mux(&self, meta: UdpMuxMetaView) -> MuxPlan;
+    fn icmp_mux(&self) -> MuxPlan;
+}
+
+static CONNECTORS: Mutex<Option<HashMap<usize, Arc<dyn Connector>>>> = Mutex::new(None);
+
+fn key(context: &Arc<core::Context>) -> usize {
+    Arc::as_ptr(context) as usize
+}
+
+/// Keeps a connector installed for one [`core::Core`]; removes it when dropped.
+pub struct ConnectorGuard(usize);
+
+impl Drop for ConnectorGuard {
+    fn drop(&mut self) {
+        if let Some(m) = CONNECTORS.lock().unwrap().as_mut() {
+            m.remove(&self.0);
+        }
+    }
+}
+
+pub(crate) fn install_connector(
+    context: &Arc<core::Context>,
+    connector: Arc<dyn Connector>,
+) -> ConnectorGuard {
+    let k = key(context);
+    CONNECTORS
+        .lock()
+        .unwrap()
+        .get_or_insert_with(HashMap::new)
+        .insert(k, connector);
+    ConnectorGuard(k)
+}
+
+/// Consulted by `Core::make_forwarder`: `Some` when the harness installed a connector.
+pub(crate) fn forwarder_override(context: &Arc<core::Context>) -> Option<Box<dyn Forwarder>> {
+    let connector = CONNECTORS
+        .lock()
+        .unwrap()
+        .as_ref()
+        .and_then(|m| m.get(&key(context)).cloned())?;
+    Some(Box::new(ScriptedForwarder {
+        context: context.clone(),
+        connector,
+    }))
+}
+
+struct ScriptedForwarder {
+    context: Arc<core::Context>,
+    connector: Arc<dyn Connector>,
+}
+
+struct ScriptedConnector(Arc<dyn Connector>);
+
+#[async_trait]
+impl TcpConnector for ScriptedConnector {
+    async fn connect(
+        self: Box<Self>,
+        _id: log_utils::IdChain<u64>,
+        meta: TcpConnectionMeta,
+    ) -> Result<(Box<dyn pipe::Source>, Box<dyn pipe::Sink>), tunnel::ConnectionError> {
+        match self.0.tcp_connect((&meta).into()).await {
+            Ok((rx, tx)) => Ok((Box::new(SourceIn(rx)), Box::new(SinkIn(tx)))),
+            Err(e) => Err(e.into()),
+        }
+    }
+}
+
+struct ScriptedAuthenticator(Arc<dyn Connector>);
+
+#[async_trait]
+impl DatagramMultiplexerAuthenticator for ScriptedAuthenticator {
+    async fn check_auth(
+        self: Box<Self>,
+        client_address: IpAddr,
+        tls_domain: &'_ str,
+        auth: authentication::Source<'_>,
+        user_agent: Option<&'_ str>,
+    ) -> Result<(), tunnel::ConnectionError> {
+        self.0
+            .datagram_auth(UdpMuxMetaView {
+                client_address,
+                auth: Some((&auth).into()),
+                tls_domain: tls_domain.to_string(),
+                user_agent: user_agent.map(String::from),
+            })
+            .await
+            .map_err(Into::into)
+    }
+}
+
+struct NeverSource<T>(std::marker::PhantomData<T>);
+
+#[async_trait]
+impl<T: Send> datagram_pipe::Source for NeverSource<T> {
+    type Output = T;
+    fn id(&self) -> log_utils::IdChain<u64> {
+        log_utils::IdChain::empty()
+    }
+    async fn read(&mut self) -> io::Result<T> {
+        futures::future::pending().await
+    }
+}
+
+struct NullSink<T>(std::marker::PhantomData<T>);
+
+#[async_trait]
+impl<T: Send> datagram_pipe::Sink for NullSink<T> {
+    type Input = T;
+    async fn write(&mut self, _: T) -> io::Result<datagram_pipe::SendStatus> {
+        Ok(datagram_pipe::SendStatus::Dropped)
+    }
+}
+
+struct NullShared;
+
+#[async_trait]
+impl forwarder::UdpDatagramPipeShared for NullShared {
+    async fn on_new_udp_connection(&self, _: &downstream::UdpDatagramMeta) -> io::Result<()> {
+        Ok(())
+    }
+    fn on_connection_closed(&self, _: &forwarder::UdpDatagramMeta) {}
+}
+
+impl Forwarder for ScriptedForwarder {
+    fn tcp_connector(&self) -> Box<dyn TcpConnector> {
+        Box::new(ScriptedConnector(self.connector.clone()))
+    }
+
+    fn datagram_mux_authenticator(&self) -> Box<dyn DatagramMultiplexerAuthenticator> {
+        Box::new(ScriptedAuthenticator(self.connector.clone()))
+    }
+
+    fn make_udp_datagram_multiplexer(
+        &self,
+        id: log_utils::IdChain<u64>,
+        meta: UdpMultiplexerMeta,
+    ) -> io::Result<UdpMultiplexer> {
+        let view = UdpMuxMetaView {
+            client_address: meta.client_address,
+            auth: meta.auth.as_ref().map(AuthView::from),
+            tls_domain: meta.tls_domain.clone(),
+            user_agent: meta.user_agent.clone(),
+        };
+        match self.connector.udp_mux(view) {
+            MuxPlan::Fail(e) => Err(e),
+            MuxPlan::NotConfigured => Err(io::Error::new(io::ErrorKind::Other, "not configured")),
+            MuxPlan::Real => udp_forwarder::make_multiplexer(self.context.clone(), id),
+            MuxPlan::Dummy => Ok((
+                Arc::new(NullShared),
+                Box::new(NeverSource(Default::default())),
+                Box::new(NullSink(Default::default())),
+            )),
+        }
+    }
+
+    fn make_icmp_datagram_multiplexer(
+        &self,
+        id: log_utils::IdChain<u64>,
+    ) -> io::Result<Option<IcmpMultiplexer>> {
+        match self.connector.icmp_mux() {
+            MuxPlan::Fail(e) => Err(e),
+            MuxPlan::NotConfigured => Ok(None),
+            MuxPlan::Real => self
+                .context
+                .icmp_forwarder
+                .as_ref()
+                .map(|x| x.make_multiplexer(id))
+                .transpose(),
+            MuxPlan::Dummy => Ok(Some((
+                Box::new(NeverSource(Default::default())),
+                Box::new(NullSink(Default::default())),
+            ))),
+        }
+    }
+}
+
+/// Expose crate pipe halves through the mirror traits
+pub(crate) fn halves_out(x: (Box<dyn pipe::Source>, Box<dyn pipe::Sink>)) -> PipeHalves {
+    (Box::new(SourceOut(x.0)), Box::new(SinkOut(x.1)))
+}
+
+/// Plain view of [`crate::tls_demultiplexer::ConnectionMeta`]
+#[derive(Debug, Clone, PartialEq, Eq)]
+pub struct MetaView {
+    pub sni: String,
+    pub protocol: Proto,
+    pub channel: ChannelView,
+    pub cert_chain_path: String,
+    pub key_path: String,
+    /// DER of the first certificate of the chain that would be served
+    pub leaf_cert: Vec<u8>,
+    pub sni_auth_creds: Option<String>,
+    /// `{:?}` of the meta, as the connection handler logs it
+    pub debug: String,
+}
+
+impl From<&crate::tls_demultiplexer::ConnectionMeta> for MetaView {
+    fn from(m: &crate::tls_demultiplexer::ConnectionMeta) -> Self {
+        Self {
+            sni: m.sni.clone(),
+            protocol: m.protocol.into(),
+            channel: m.channel.into(),
+            cert_chain_path: m.cert_chain_path.clone(),
+            key_path: m.key_path.clone(),
+            leaf_cert: m.cert_chain.first().map(|c| c.0.clone()).unwrap_or_default(),
+            sni_auth_creds: m.sni_auth_creds.clone(),
+            debug: format!("{:?}", m),
+        }
+    }
+}
